@@ -122,6 +122,11 @@ func (b *Builder) RandTable(id uint64, db, name string, ncols int) *hist.Table {
 		if IsInt(ty) {
 			c.Unsigned = r.Bool()
 		}
+		if ty == ev.TFloat || ty == ev.TDouble || ty == ev.TNewDecimal {
+			// FLOAT / DOUBLE / DECIMAL ... UNSIGNED: a mapper that looks for "unsigned"
+			// in the column type (the one in the package documentation) marks them too
+			c.Unsigned = r.Chance(1, 3)
+		}
 		t.Cols = append(t.Cols, c)
 	}
 	if r.Chance(1, 3) {
@@ -168,6 +173,14 @@ func (b *Builder) Image(t *hist.Table, id uint64) []hist.Value {
 			vals[i] = z
 		} else {
 			vals[i] = RandValue(r, c, b.O.Loc)
+			if c.Unsigned && (c.Type == ev.TFloat || c.Type == ev.TDouble || c.Type == ev.TNewDecimal) {
+				for k := 0; k < 16 && len(vals[i].Text) > 0 && vals[i].Text[0] == '-'; k++ {
+					vals[i] = RandValue(r, c, b.O.Loc) // an UNSIGNED column holds no negative value
+				}
+				if len(vals[i].Text) > 0 && vals[i].Text[0] == '-' {
+					vals[i] = hist.Value{Null: true}
+				}
+			}
 		}
 	}
 	return vals
@@ -326,7 +339,7 @@ var dmlTemplates = []string{"INSERT INTO t VALUES (%d)", "UPDATE t SET a = %d", 
 var unknownStmts = []string{"SAVEPOINT sp1", "RELEASE SAVEPOINT sp1", "GRANT ALL ON *.* TO u", "REVOKE ALL ON *.* FROM u",
 	"FLUSH TABLES", "ANALYZE TABLE t", "XA START 'x'", "XA END 'x'", "OPTIMIZE TABLE t", "savepoint a", "REPAIR TABLE t",
 	// undoing part of an open transaction does not end it (logged when a non-transactional table was touched)
-	"ROLLBACK TO `sp1`", "ROLLBACK TO SAVEPOINT sp1", "rollback to a", "Rollback\tTo sp1"}
+	"ROLLBACK TO `sp1`", "ROLLBACK TO SAVEPOINT sp1", "rollback to a", "Rollback\tTo sp1", "ROLLBACK  TO `sp1`", "ROLLBACK\r\nTO\r\nsp1", "rollback \t to\nsavepoint x"}
 
 // UnknownEventTypes are event types the streamer has no case for.
 var UnknownEventTypes = []byte{ev.Stop, ev.UserVar, ev.Incident, ev.Ignorable, ev.TransactionCtx, ev.ViewChange, ev.XAPrepare, 39, 40, 41, ev.StartV3, ev.AppendBlock}
